@@ -2,6 +2,7 @@
 from __future__ import annotations
 
 import collections
+import contextlib
 import copy
 import os
 import warnings
@@ -74,7 +75,11 @@ def gen_case(tape, tier):
         # the same map restricted to part of an axis (fixed_indices): if the tree accepts the request, every call it
         # makes must still be one of the full run's calls - a function must never see an incompletely filled input
         a = tape.pick(axes, "fixed-axis")
-        case["restricted"] = {a: tape.choose(w["indices"][a], "fixed-index")}
+        i_fixed = tape.choose(w["indices"][a], "fixed-index")
+        case["restricted"] = {a: i_fixed - w["indices"][a] if tape.coin(0.3, "negative-index") else i_fixed}
+        # ... executed after the other runs in a folder of its own, or BEFORE the first run in the first run's folder,
+        # which then continues it (cleanup=False) under the case's executor and storage: together they are one full run
+        case["restricted_first"] = bool(tape.coin(0.5, "restricted-first")) and cfg["run_folder"]
     return case
 
 
@@ -89,7 +94,7 @@ def simplify(case):
             yield c
         for w in C.simplify_workload(case["workload"]):
             (a, i), = case["restricted"].items()
-            if a in w["indices"] and i < w["indices"][a]:
+            if a in w["indices"] and -w["indices"][a] <= i < w["indices"][a]:
                 c = copy.deepcopy(case)
                 c["workload"] = w
                 c.pop("second", None)
@@ -150,6 +155,11 @@ def simplify(case):
 
 
 def run_case(case, exec_seed=None, exec_tape=None):
+    with contextlib.ExitStack() as stack:
+        return _run_case(case, exec_seed, exec_tape, stack)
+
+
+def _run_case(case, exec_seed, exec_tape, stack):
     w, cfg = case["workload"], case["config"]
     out = {"violations": [], "probes": {}, "nontrivial": [], "evaluations": 1}
     C.begin_case()
@@ -167,13 +177,25 @@ def run_case(case, exec_seed=None, exec_tape=None):
 
     runs = [("first", cfg)] + ([("second", case["second"])] if case.get("second") else [])
     if case.get("restricted"):
-        runs.append(("restricted", dict(cfg, fixed=case["restricted"], run_folder=True)))
+        rcfg = dict(cfg, fixed=case["restricted"], run_folder=True)
+        if case.get("restricted_first"):
+            runs.insert(0, ("restricted", dict(rcfg, persist_memory=True, executor={"kind": "sequential"}, entry="map")))
+        else:
+            runs.append(("restricted", rcfg))
     shared = {}
     digests = []
+    carry = {}  # an accepted restricted run that the first run continues: its scratch root and its calls
     for run_tag, cfg in runs:
       if viol:
           break
-      with C.Scratch() as root, warnings.catch_warnings():
+      resumed = run_tag == "first" and "root" in carry
+      if resumed:
+          ctx = contextlib.nullcontext(carry["root"])
+      elif run_tag == "restricted" and case.get("restricted_first"):
+          ctx = contextlib.nullcontext(stack.enter_context(C.Scratch()))  # lives until the case ends
+      else:
+          ctx = C.Scratch()
+      with ctx as root, warnings.catch_warnings():
         warnings.simplefilter("ignore")
         sim = C.new_sim(tape, root, preempt=cfg["preempt"],
                         fs_kwargs={"short_writes": cfg.get("short_writes", 0.0), "buffer_size": cfg.get("buffer_size")})
@@ -194,6 +216,9 @@ def run_case(case, exec_seed=None, exec_tape=None):
                 restricted = run_tag == "restricted"
                 if restricted:
                     kw["fixed_indices"] = dict(cfg["fixed"])
+                if resumed:
+                    kw["cleanup"] = False
+                    sim.probe("first_run_continues_restricted_run")
 
                 def main():
                     if cfg["entry"] == "map":
@@ -230,6 +255,30 @@ def run_case(case, exec_seed=None, exec_tape=None):
                 texc = [t for t in sim.kernel.threads if t.exc is not None]
                 if err is None and texc:
                     V("liveness", "task-thread-died:" + type(texc[0].exc).__name__, repr(texc[0].exc)[:300])
+                if res is not None and restricted and case.get("restricted_first"):
+                    # keep the folder: the first run continues there (the scratch directory lives until the case ends)
+                    earlier = []
+                    for c0 in sim.calls:  # everything of the restricted run happened before the first run starts
+                        c1 = copy.copy(c0)
+                        c1.start, c1.end = c0.start - 10**9, (c0.end - 10**9 if c0.end is not None else None)
+                        earlier.append(c1)
+                    carry["root"], carry["calls"] = root, earlier
+                if res is not None and restricted:
+                    # an accepted request computes and stores precisely the selected elements
+                    import numpy as np
+                    from pipefunc.map._storage_array._base import StorageBase
+
+                    from . import c06_parts as c06
+
+                    for o, (shape, sel) in c06._masks_expected(w, [cfg["fixed"]]).items():
+                        st = res[o].store if o in res else None
+                        if isinstance(st, StorageBase):
+                            msk = np.asarray(np.ma.getdata(st.mask)).astype(bool)
+                            got = {tuple(int(x) for x in e) for e in np.ndindex(*shape) if not msk[e]}
+                            if got != sel:
+                                V("stored", "restricted-run-stored-other-elements-than-selected",
+                                  {"fixed": cfg["fixed"], "output": o, "present": sorted(got)[:8], "selected": sorted(sel)[:8]})
+                                break
                 if res is not None and restricted:
                     sim.probe("restricted_run_accepted")
                     got = collections.Counter(c.key() for c in sim.calls)
@@ -257,14 +306,14 @@ def run_case(case, exec_seed=None, exec_tape=None):
                     # 2. stored data
                     _check_stored(w, cfg, res, ref, folder, V)
                     # 3 + 4. call log
-                    for kind, detail in C.check_calls(w, sim.calls, ref.C0):
+                    for kind, detail in C.check_calls(w, (carry["calls"] if resumed else []) + list(sim.calls), ref.C0):
                         V("calls", kind, detail)
         finally:
             C.restore_default_pool(sim)
       digests.append(sim.kernel.digest())
       out["yields"] = out.get("yields", 0) + sim.kernel.steps
       for v in viol[nviol0:]:
-          v["kind"] = v["kind"] if run_tag == "first" else "second-run:" + v["kind"]
+          v["kind"] = v["kind"] if run_tag == "first" else f"{run_tag}-run:" + v["kind"]
     cfg = case["config"]
     k = sim.kernel
     out["exec_tape"] = tape.recorded()
